@@ -32,6 +32,15 @@ CHECKS = {
             "the GC actions skipped (it must then pass) so only GC-caused deviations are reported. Named points counted per case show which GC actions (mark, merge, truncate, unlink, header advance, "
             "relocation of >=2 records) were really exercised.",
             BASE + " An error returned by a GC cycle is not treated as a violation (the statement is about contents).", "4 C04"),
+    "C05": (True, "exploration", "schedule exploration with a cooperative scheduler on named yield points + porcupine linearizability oracle; free-running variant for volume",
+            "Generated concurrent histories (2-4 tasks of Put/Get/Has/GetSize/Remove, optional Flush task, keys concentrated in one or two buckets) run on the real store under a cooperative scheduler that parks tasks at the named points between the "
+            "non-atomic sub-steps and follows generated schedules (single long preemption at a drawn point, PCT-style priorities, random walks); every call must return without error and the recorded history, with final reads appended, must be "
+            "linearizable with respect to a per-key register (porcupine). A free-running variant with a 1 ms flusher adds volume. Schedules are controlled at the granularity of the named points; real locks are used, so every explored execution is a real execution.",
+            BASE + " porcupine v1.3.0 is the linearizability checker. Interleavings finer than the named points are only reached by the free-running variant.", "4 C05"),
+    "C06": (True, "exploration", "schedule exploration (cooperative scheduler incl. points inside both collectors) + porcupine linearizability oracle + directed single-preemption shapes",
+            "As C05 with single writer per key, on stores prepared so that GC really marks, merges, truncates, relocates and unlinks, with tasks running primary and index GC cycles; half of the scheduled cases have the directed shape of the windows the property names "
+            "(a foreground call parked inside the operation while a writer, a flush and GC cycles complete). No call may fail, no Get may return bytes never written for its key, and the history must be linearizable including the final reads.",
+            BASE + " porcupine v1.3.0. Same granularity caveat as C05.", "4 C06"),
     "C07": (True, "exploration", "property testing with an independent file-format reader (fsck) as invariant oracle after every quiescent step",
             "Random histories (all primaries, GC, reopen) during which an independent re-implementation of the on-disk formats checks every clause of the invariant after each Flush, completed GC cycle, reopen and "
             "Close: live table = own rescan = snapshot; bucket -> complete, non-deleted, correctly tagged record; entries sorted, prefix-free, distinct locations; entry -> complete, non-deleted primary record "
@@ -64,6 +73,11 @@ CHECKS = {
             "Random histories at one index bit size, clean close, reopen at another (translation), full read-back and iteration against the reference map, more history under the new size, repeated; refused opens with another index / primary "
             "file-size limit must return ErrIndexWrongFileSize / ErrPrimaryWrongFileSize and leave the contents readable under the original settings. The crash clause (an interrupted re-bucketing never opens with fewer keys) is decided by crash-point enumeration inside the translation (see evidence keys crash_*).",
             BASE, "4 C09"),
+    "C12": (True, "exploration", "schedule exploration of the back-pressure protocol with the real flusher goroutine adopted by the cooperative scheduler; bounded-liveness closure judged by goroutine state",
+            "Writers on a store with BurstRate(0) and a pinned flush rate always enter the waiting path; the scheduler interleaves them with the adopted flusher goroutine and explicit Flush tasks at the points measure / decide / register / signal / wait and inside Flush. "
+            "After the generated schedule everything runs freely and three more Flush calls complete; a writer that is then still in the channel receive of the wait while the flusher idles in its select and no flush is in progress can never be released - that state, not elapsed time, is the verdict. "
+            "Liveness can only be checked in this bounded form by generated-input search.",
+            BASE + " Goroutine states are read from runtime.Stack. A run that does not reach a verdict state within 8 s is counted as inconclusive, never as a violation.", "4 C12"),
     "C13": (True, "exploration", "property testing with multiset accounting over histories; concurrent exploration of the freelist package with injected delays at named points",
             "Sequential histories: the multiset of locations that stop being current (overwrite, removal, GC relocation; observed through the public index lookup around every call) must equal the multiset of locations that reach GC "
             "(the .gc batch read at the named point just before it is dropped) plus what is left in .free/.free.gc after a final flush - each exactly once, nothing else, never a current location, and every delivered record is dead after its cycle. "
